@@ -31,7 +31,7 @@ pub struct Stats {
 }
 
 /// all C15 clauses on one (non-empty) digest
-pub fn check_digest(t: &dyn Td, w_min: f64, r: &mut FastRng, st: &mut Stats) -> Result<(), (String, String)> {
+pub fn check_digest(t: &dyn Td, w_min: f64, data_points: &[f64], r: &mut FastRng, st: &mut Stats) -> Result<(), (String, String)> {
     let cents = t.centroids();
     let s: f64 = cents.iter().map(|c| c.1).sum();
     let (mn, mx) = (t.min(), t.max());
@@ -105,6 +105,12 @@ pub fn check_digest(t: &dyn Td, w_min: f64, r: &mut FastRng, st: &mut Stats) -> 
         xs.push(c.0);
         xs.push(ulp_up(c.0));
         xs.push(ulp_down(c.0));
+    }
+    // exactly the inserted values (tied values differ from a fused centroid's mean by an ulp)
+    for x in data_points {
+        xs.push(*x);
+        xs.push(ulp_up(*x));
+        xs.push(ulp_down(*x));
     }
     xs.retain(|x| !x.is_nan());
     xs.sort_by(|a, b| a.partial_cmp(b).unwrap());
@@ -226,7 +232,7 @@ fn item(ctx: &Ctx, i: usize, rep: &mut Report) {
     let delta = *r.pick(&[1.1, 1.5, 2.0, 4.0, 5.0, 10.0, 20.0, 50.0, 100.0, 300.0, 1000.0]);
     let backlog = *r.pick(&[0usize, 1, 10, 1000]);
     let fams: Vec<Family> = SMOOTH.iter().chain(TIES.iter()).copied().collect();
-    let fam = fams[(i / 4) % 13];
+    let fam = fams[(i / 4) % 14];
     let wmode = r.below(4); // 0,1: unit; 2: 1e-3..1e3; 3: 1..1e6
     let n: usize = match r.below(10) {
         0 => 1,
@@ -240,6 +246,7 @@ fn item(ctx: &Ctx, i: usize, rep: &mut Report) {
     let mut t = make_td(sf, delta, backlog);
     let mut st = Stats { consistency_ratio: 0.0, nontie_ratio: 0.0, mono_excursion_tau: 0.0, end_excursion_tau: 0.0, reads: 0 };
     let mut w_min = f64::INFINITY;
+    let mut points: Vec<f64> = vec![];
     let heavy_ends = r.chance(0.2);
     let res = guarded(|| -> Result<(), (String, String)> {
         check_empty(t.as_ref())?;
@@ -253,6 +260,9 @@ fn item(ctx: &Ctx, i: usize, rep: &mut Report) {
             };
             let w = if heavy_ends && (k < 2 || k + 2 >= n) { w * 1000.0 } else { w };
             w_min = w_min.min(w);
+            if points.len() < 64 && (k < 32 || r.chance(0.01)) {
+                points.push(x);
+            }
             if w == 1.0 {
                 t.insert(x);
             } else {
@@ -260,11 +270,11 @@ fn item(ctx: &Ctx, i: usize, rep: &mut Report) {
             }
             if k + 1 == mid_check {
                 first_read_repeatable(t.as_ref(), &mut r)?;
-                check_digest(t.as_ref(), w_min, &mut r, &mut st)?;
+                check_digest(t.as_ref(), w_min, &points, &mut r, &mut st)?;
             }
         }
         first_read_repeatable(t.as_ref(), &mut r)?;
-        check_digest(t.as_ref(), w_min, &mut r, &mut st)?;
+        check_digest(t.as_ref(), w_min, &points, &mut r, &mut st)?;
         // after clear: empty behaviour again
         let mut c = t.boxed_clone();
         c.clear();
